@@ -373,9 +373,17 @@ End Store.
 Record st := { s_main : ustore; s_cfg : ustore; s_cfgopen : bool; s_nx : N }.
 Definition st0 : st := {| s_main := []; s_cfg := []; s_cfgopen := false; s_nx := 0 |}.
 
+(* spi.QueryOption values, in the order the caller passes them: WithSortOrder({order, TagName n}) (n = 0: empty name),
+   WithPageSize p, WithInitialPageNum p.  A later option overrides an earlier one of its kind. *)
+Inductive qopt := QSort (n : N) | QPage (p : N) | QInit (p : N).
+Fixpoint last_sort (l : list qopt) (acc : option N) : option N :=
+  match l with [] => acc | QSort n :: r => last_sort r (Some n) | _ :: r => last_sort r acc end.
+Fixpoint last_init (l : list qopt) (acc : N) : N :=
+  match l with [] => acc | QInit p :: r => last_init r p | _ :: r => last_init r acc end.
+
 Inductive xop :=
 | XS (o : op)                      (* a call on the store handle *)
-| XQuerySort (q : list crit) (sort : N)   (* Query(expression, WithPageSize, WithSortOrder({Descending, TagName})) *)
+| XQueryOpts (q : list crit) (opts : list qopt)   (* Query(expression, options...) *)
 | XSetCfg (names : list N)         (* Provider.SetStoreConfig(name, {TagNames}) *)
 | XGetCfg.                         (* Provider.GetStoreConfig(name); result as OTags [(name, 0); ...] *)
 
@@ -448,12 +456,18 @@ Definition xstep (v : variant) (c : fcfg) (s : st) (o : xop) : st * out * list c
   | XS Reopen =>
       (* formatStore.Close closes the underlying store (the in-memory provider drops it), OpenStore opens it again *)
       ({| s_main := []; s_cfg := s_cfg s; s_cfgopen := s_cfgopen s; s_nx := s_nx s |}, ODone, [CClose 0; COpen 0])
-  | XQuerySort q sn =>
-      (* the in-memory provider refuses sort options: the call is made, the result is an error *)
+  | XQueryOpts q opts =>
+      (* what the underlying store resolves the options to: the tag name of the sort option in force.  The in-memory
+         provider refuses sort options and a non-zero initial page: the call is made, the result is an error *)
       if is_nil q then (s, OErr, []) else
-      let '(nx, _, l) := fs_query c 0 (s_main s) (s_nx s) (split_colon (expr_toks q) []) in
-      ({| s_main := s_main s; s_cfg := s_cfg s; s_cfgopen := s_cfgopen s; s_nx := nx |}, OErr,
-       map (add_sort (sort_term v c sn)) l)
+      let '(nx, x, l) := fs_query c 0 (s_main s) (s_nx s) (split_colon (expr_toks q) []) in
+      let srt := last_sort opts None in
+      ({| s_main := s_main s; s_cfg := s_cfg s; s_cfgopen := s_cfgopen s; s_nx := nx |},
+       (match srt with Some _ => OErr | None => if N.eqb (last_init opts 0) 0 then x else OErr end),
+       match srt with
+       | Some n => if N.eqb n 0 then l else map (add_sort (sort_term v c n)) l
+       | None => l
+       end)
   | XSetCfg names =>
       if existsb colon_name names then (s, OErr, []) else
       let tags := map (fun n => (tname n, lit_empty)) names ++ (if f_det c then [] else [(lit_keytag, lit_empty)]) in
